@@ -46,3 +46,8 @@ PROP["theorems"] += ["Gnmi.C05Poll." + t for t in [
         "round_exact", "feedSub_idle", "subscribe_shape", "walkItems_isSome", "walkItems_isSome_congr",
         "round_pinv", "good_of_reach", "reach_step", "walk_fail", "walk_once", "walk_body", "insertHandle_keys", "walk_fold_keys",
         "SnapshotOnce.body"]]
+# bC05L: the SEQ/LTS simulation extended to ONCE / POLL, poll, eof (Props/C05Refine.lean); run forms of the C05 LTS theorems (Props/C05LRun.lean)
+from c05refine_part import MODULES as _C05R_MODULES, THEOREMS as _C05R_THEOREMS, LEVEL_TEXT as _C05R_TEXT
+PROP["modules"] += _C05R_MODULES
+PROP["theorems"] += _C05R_THEOREMS
+PROP["manifest"]["level_text"] += _C05R_TEXT
